@@ -212,6 +212,16 @@ func (p *VipnodePool) Update(ctx context.Context, sig string, nodeID string, non
 		}
 	}
 
+	// The balance manager bills from the previous LastSeen until now, but the
+	// LastSeen that the next update will be billed from was saved a moment ago
+	// by UpdateNodePeers. Whatever time passed since then (slow store, busy
+	// pool) must not be billed by both updates, so leave it to the next one.
+	if updated, err := p.Store.GetNode(store.NodeID(nodeID)); err == nil {
+		if sinceSaved := time.Since(updated.LastSeen); sinceSaved > 0 {
+			nodeBeforeUpdate.LastSeen = nodeBeforeUpdate.LastSeen.Add(sinceSaved)
+		}
+	}
+
 	nodeBalance, err := p.BalanceManager.OnUpdate(nodeBeforeUpdate, active)
 	if err != nil {
 		if _, ok := err.(balance.LowBalanceError); ok {
